@@ -5,10 +5,10 @@ import vlib
 from vlib import NoVerdict, log
 
 CFG = {
-    "C17": dict(quick=["MCSigner_c17q", "MCSigner_c17c", "MCSigner_c17d", "MCSigner_c17lq", "MCSigner_c17x", "MCSigner_c17r"],
-                thorough=["MCSigner_c17t", "MCSigner_c17c", "MCSigner_c17d", "MCSigner_c17lt", "MCSigner_c17x", "MCSigner_c17r"], mode="c17", formula="TC17"),
-    "C18": dict(quick=["MCSigner_c18a", "MCSigner_c18b", "MCSigner_c18h", "MCSigner_c18r", "MCSigner_c18p", "MCSigner_c18s"],
-                thorough=["MCSigner_c18t", "MCSigner_c18h", "MCSigner_c18r", "MCSigner_c18p", "MCSigner_c18s"], mode="c18", formula="TC18"),
+    "C17": dict(quick=["MCSigner_c17q", "MCSigner_c17c", "MCSigner_c17d", "MCSigner_c17lq", "MCSigner_c17x", "MCSigner_c17r", "MCSigner_c17m"],
+                thorough=["MCSigner_c17t", "MCSigner_c17c", "MCSigner_c17d", "MCSigner_c17lt", "MCSigner_c17x", "MCSigner_c17r", "MCSigner_c17m"], mode="c17", formula="TC17"),
+    "C18": dict(quick=["MCSigner_c18a", "MCSigner_c18b", "MCSigner_c18h", "MCSigner_c18r", "MCSigner_c18p", "MCSigner_c18s", "MCSigner_c18e"],
+                thorough=["MCSigner_c18t", "MCSigner_c18h", "MCSigner_c18r", "MCSigner_c18p", "MCSigner_c18s", "MCSigner_c18e"], mode="c18", formula="TC18"),
 }
 TRACE_CFG = """SPECIFICATION TraceSpec
 CONSTANTS
@@ -19,6 +19,7 @@ CONSTANTS
   Attempts = {}
   Ctxs = {}
   Tries = {}
+  Calls = {}
   Reqs = {}
   Hists = {}
 """
@@ -162,6 +163,8 @@ def vkey(trace, li):
         k += " bundle=%s/%s" % ("+".join(r0["bundle"]["cas"]), r0["bundle"]["lay"])
     if r0.get("ctx", "wide") != "wide" or r0.get("hist", "none") != "none" or r0.get("tries", 1) != 1:
         k += " ctx=%s hist=%s tries=%d" % (r0.get("ctx", "wide"), r0.get("hist", "none"), r0.get("tries", 1))
+    if r0.get("next"):
+        k += " calls=2 second=%s" % ",".join(x["cls"] + ("(%d)" % len(x["certs"]) if x["cls"] == "ok" else "") for x in r0["next"])
     if r0.get("req", "full") != "full":
         k += " req=%s" % r0["req"]
     if e["op"] == "return":
@@ -174,7 +177,7 @@ def vkey(trace, li):
 
 def case_of(trace):
     r0 = trace[0]
-    return {"eps": r0["eps"], "bundle": r0["bundle"], "ctx": r0.get("ctx", "wide"), "tries": r0.get("tries", 1), "req": r0.get("req", "full"), "hist": r0.get("hist", "none"), "info": r0.get("info")}
+    return {"eps": r0["eps"], "bundle": r0["bundle"], "ctx": r0.get("ctx", "wide"), "tries": r0.get("tries", 1), "req": r0.get("req", "full"), "next": r0.get("next") or [], "hist": r0.get("hist", "none"), "info": r0.get("info")}
 
 
 def proc_key(c):
